@@ -4,6 +4,8 @@ import (
 	"go/ast"
 	"go/token"
 	"go/types"
+
+	"golang.org/x/tools/go/packages"
 )
 
 // ruleEmptySentinel: some "only once" setters of the catalog have no flag of their own: `if c.Info.Title != "" {
@@ -36,7 +38,7 @@ func (c *Ctx) ruleEmptySentinel(rule string) {
 				continue
 			}
 			be, ok := ast.Unparen(ifs.Cond).(*ast.BinaryExpr)
-			if !ok || be.Op != token.NEQ || !isEmptyStringLit(be.Y) {
+			if !ok || (be.Op != token.NEQ && be.Op != token.EQL) || !isEmptyStringLit(be.Y) {
 				continue
 			}
 			path := accessPath(pk, be.X)
@@ -72,7 +74,15 @@ func (c *Ctx) ruleEmptySentinel(rule string) {
 					continue
 				}
 				cf := buildCFG(cs.g.Decl.Body)
+				// the value may come from a helper that reads a required parameter: `v, je := required(d, "K")`
+				var errObj types.Object
+				if id, isId := ast.Unparen(arg).(*ast.Ident); isId {
+					errObj, _, _ = c.requiredBy(cs.g, cs.g.Pkg.TypesInfo.Uses[id])
+				}
 				okk := cf.establishedAt(cs.call, func(cond ast.Expr, trueEdge bool) bool {
+					if successEdge(cs.g.Pkg, cond, trueEdge, errObj) {
+						return true
+					}
 					for _, a := range impliedAtoms(cond, trueEdge) {
 						if b, ok := a.e.(*ast.BinaryExpr); ok && isEmptyStringLit(b.Y) && accessPath(cs.g.Pkg, b.X) == ap {
 							if (b.Op == token.NEQ && a.holds) || (b.Op == token.EQL && !a.holds) {
@@ -107,4 +117,121 @@ func (c *Ctx) ruleEmptySentinel(rule string) {
 func isEmptyStringLit(e ast.Expr) bool {
 	bl, ok := ast.Unparen(e).(*ast.BasicLit)
 	return ok && bl.Kind == token.STRING && (bl.Value == `""` || bl.Value == "``")
+}
+
+// nonEmptyOnSuccess: h returns (string, error-like); on every return whose second result is the nil literal the first
+// result is an expression for which `!= ""` is established at that return (a helper that reads a required
+// parameter and refuses the empty one). Returns the index of the parameter that is handed to NamedParameter as key
+// (-1 if the value does not come from NamedParameter of a parameter key).
+func (c *Ctx) nonEmptyOnSuccess(h *Fn) (ok bool, keyParam int) {
+	keyParam = -1
+	sig, _ := h.Obj.Type().(*types.Signature)
+	if sig == nil || sig.Results().Len() != 2 {
+		return false, -1
+	}
+	if b, isB := sig.Results().At(0).Type().Underlying().(*types.Basic); !isB || b.Kind() != types.String {
+		return false, -1
+	}
+	cf := buildCFG(h.Decl.Body)
+	n := 0
+	good := true
+	ast.Inspect(h.Decl.Body, func(nd ast.Node) bool {
+		if _, isLit := nd.(*ast.FuncLit); isLit {
+			return false
+		}
+		ret, isRet := nd.(*ast.ReturnStmt)
+		if !isRet {
+			return true
+		}
+		if len(ret.Results) != 2 {
+			good = false
+			return true
+		}
+		if !isNil(h.Pkg, ret.Results[1]) {
+			return true
+		}
+		n++
+		ap := accessPath(h.Pkg, ret.Results[0])
+		if ap == "" {
+			good = false
+			return true
+		}
+		if !cf.establishedAt(ret, func(cond ast.Expr, trueEdge bool) bool {
+			for _, a := range impliedAtoms(cond, trueEdge) {
+				if b, isB := a.e.(*ast.BinaryExpr); isB && isEmptyStringLit(b.Y) && accessPath(h.Pkg, b.X) == ap {
+					if (b.Op == token.NEQ && a.holds) || (b.Op == token.EQL && !a.holds) {
+						return true
+					}
+				}
+			}
+			return false
+		}, nil) {
+			good = false
+		}
+		// where the value comes from
+		if id, isId := ast.Unparen(ret.Results[0]).(*ast.Ident); isId {
+			obj := h.Pkg.TypesInfo.Uses[id]
+			ast.Inspect(h.Decl.Body, func(m ast.Node) bool {
+				if as, isAs := m.(*ast.AssignStmt); isAs && len(as.Lhs) == 1 && len(as.Rhs) == 1 {
+					if lid, isL := as.Lhs[0].(*ast.Ident); isL && h.Pkg.TypesInfo.ObjectOf(lid) == obj {
+						if call, isCall := ast.Unparen(as.Rhs[0]).(*ast.CallExpr); isCall && len(call.Args) == 1 {
+							if cal := callee(h.Pkg, call); cal != nil && cal.Name() == "NamedParameter" {
+								keyParam = paramIndexOf(h, call.Args[0])
+							}
+						}
+					}
+				}
+				return true
+			})
+		}
+		return true
+	})
+	return good && n > 0, keyParam
+}
+
+// requiredBy: the local `obj` of g is defined by `obj, e := h(...)` with a helper that is non-empty on success;
+// returns the error variable that tells success and the call.
+func (c *Ctx) requiredBy(g *Fn, obj types.Object) (errObj types.Object, call *ast.CallExpr, keyParam int) {
+	keyParam = -1
+	ast.Inspect(g.Decl.Body, func(nd ast.Node) bool {
+		as, ok := nd.(*ast.AssignStmt)
+		if !ok || len(as.Lhs) != 2 || len(as.Rhs) != 1 || errObj != nil {
+			return true
+		}
+		l0, ok0 := as.Lhs[0].(*ast.Ident)
+		l1, ok1 := as.Lhs[1].(*ast.Ident)
+		if !ok0 || !ok1 || g.Pkg.TypesInfo.ObjectOf(l0) != obj {
+			return true
+		}
+		cl, isCall := ast.Unparen(as.Rhs[0]).(*ast.CallExpr)
+		if !isCall {
+			return true
+		}
+		h := c.fnOf(callee(g.Pkg, cl))
+		if h == nil {
+			return true
+		}
+		if ok, kp := c.nonEmptyOnSuccess(h); ok {
+			errObj, call, keyParam = g.Pkg.TypesInfo.ObjectOf(l1), cl, kp
+		}
+		return true
+	})
+	return
+}
+
+// successEdge: the condition edge says that `e` is nil.
+func successEdge(pk *packages.Package, cond ast.Expr, trueEdge bool, e types.Object) bool {
+	if e == nil {
+		return false
+	}
+	for _, a := range impliedAtoms(cond, trueEdge) {
+		if b, isB := a.e.(*ast.BinaryExpr); isB && isNil(pk, b.Y) {
+			if id, isId := ast.Unparen(b.X).(*ast.Ident); isId && pk.TypesInfo.Uses[id] == e {
+				if (b.Op == token.EQL && a.holds) || (b.Op == token.NEQ && !a.holds) {
+					return true
+				}
+			}
+		}
+	}
+	return false
 }
